@@ -333,10 +333,10 @@ def run_sequence(rng, n_ops: int, t_symbol):
         rec = {"kind": o.kind}
         if o.kind == "sys":
             nm = str(h)
-            rec.update(name=nm, display=nm, latex=nm, dim=qx.dim_vec(Dimension(1)), assum=(), pp=nm, code=nm)
+            rec.update(name=nm, display=nm, latex=nm, dim=qx.dim_vec(Dimension(1)), assum=(), pp=nm, code=nm, bare=nm)
         elif o.kind == "qvec":
             rec.update(name=o.extra["internal"], display=h.display_name, latex=h.display_latex,
-                dim=qx.dim_vec(h.dimension), assum=(), pp=h.display_name, code=h.display_name)
+                dim=qx.dim_vec(h.dimension), assum=(), pp=h.display_name, code=h.display_name, bare=h.display_name)
         else:
             rec.update(name=str(h.name), display=h.display_name, latex=h.display_latex, dim=qx.dim_vec(h.dimension))
             if o.kind in ("sym", "idx"):
@@ -353,6 +353,7 @@ def run_sequence(rng, n_ops: int, t_symbol):
             rec["queries"] = {q: getattr(term, q, None) for q in QUERIES} if o.kind in SCALAR else {}
             rec["pp"] = print_expression(term)
             rec["code"] = code_str(term)
+            rec["bare"] = print_expression(h) if o.kind == "idx" else rec["pp"]
             if o.kind == "qty":
                 # the value rendering of an unnamed quantity, computed on a fresh nameless twin
                 rec["value_pp"] = _value_text(print_expression, h)
@@ -361,7 +362,7 @@ def run_sequence(rng, n_ops: int, t_symbol):
 
     def printed(rec, which):
         s = rec[which]
-        if rec["kind"] == "qty" and s == rec.get("value_" + which):
+        if rec["kind"] == "qty" and s == rec.get("value_" + ("pp" if which == "bare" else which)):
             return "PValue"
         return f"(PText {gstr(s)})"
 
@@ -369,7 +370,10 @@ def run_sequence(rng, n_ops: int, t_symbol):
         a = rec["assum"]
         alit = gassum(a) if a is not None else '[("<unclassified>", true)]'
         seen_lit.append(f"(mkseen {KINDS[rec['kind']]} {gstr(rec['name'])} {gstr(rec['display'])} {gstr(rec['latex'])} "
-            f"{qx.dim_lit(rec['dim'])} {alit} {printed(rec, 'pp')} {printed(rec, 'code')})")
+            f"{qx.dim_lit(rec['dim'])} {alit} {printed(rec, 'pp')} {printed(rec, 'code')} {printed(rec, 'bare')})")
+
+    matrix = printing_matrix(objs, seen_py, t_symbol, rng)
+    wrappers = wrapper_probe(objs, seen_py, rng)
 
     # aliasing matrix
     alias = []
@@ -460,7 +464,70 @@ def run_sequence(rng, n_ops: int, t_symbol):
         glist(f"(({', '.join(gnat(i) for i in r['idx'])}), ({', '.join(qv(v) for v in r['values'])}))" for r in algebra) + ")")
     return {"lit": lit, "objs": objs, "ops": ops_py, "seen": seen_py, "ids_before": ids_before, "ids_after": ids_after,
         "alias": alias, "sums": sums, "algebra": algebra, "bumped": bumped, "hash_equal_offdiag": hash_equal_offdiag,
-        "not_self_equal": not_self_equal, "env": env, "tabs": tabs}
+        "not_self_equal": not_self_equal, "env": env, "tabs": tabs, "matrix": matrix, "wrappers": wrappers}
+
+
+def entry_points():
+    """the printing entry points the library offers for code / console output (LaTeX is C18's)"""
+    from symplyphysics import print_expression  # pylint: disable=import-outside-toplevel
+    from symplyphysics.docs.printer_code import code_str  # pylint: disable=import-outside-toplevel
+    return {"print_expression": print_expression, "code_str": code_str, "str": str, "repr": repr}
+
+
+def printing_matrix(objs, seen, t, rng, limit=40):
+    """every kind of created object, in every shape it occurs in (alone, applied / indexed, WITHOUT index, inside a list, an
+    equation, a Tuple, a sum), through every entry point.  Returns records {i, form, entry, text}."""
+    import sympy  # pylint: disable=import-outside-toplevel
+    eps = entry_points()
+    idx = [i for i, o in enumerate(objs) if o.kind in ("sym", "idx", "fun", "qty", "vec") and 0 < len(seen[i]["display"]) <= 12]
+    if len(idx) > limit:
+        idx = sorted(rng.sample(idx, limit))
+    out = []
+    for i in idx:
+        o = objs[i]
+        term = o.term(t)
+        forms = {"term": term, "list": [term, 2], "Tuple": sympy.Tuple(term, 2)}
+        if o.kind != "vec":
+            forms["Eq"] = sympy.Eq(term, 2, evaluate=False)
+        if o.kind == "idx":
+            b = o.handle
+            forms.update({"bare": b, "bare-list": [b, 2], "bare-Tuple": sympy.Tuple(b, 2), "bare-Eq": sympy.Eq(b, b, evaluate=False)})
+        if o.kind == "fun":
+            forms["unapplied"] = o.handle
+        for fname, val in forms.items():
+            for ename, fn in eps.items():
+                try:
+                    txt = fn(val)
+                except Exception as ex:  # pylint: disable=broad-except
+                    txt = f"<raised {type(ex).__name__}>"
+                out.append({"i": i, "form": fname, "entry": ename, "text": str(txt)[:200]})
+    return out
+
+
+def wrapper_probe(objs, seen, rng, pairs=3):
+    """Symbolic wrappers (Average, FiniteDifference, ...) of two different objects that print alike must be different objects that keep
+    their own argument and dimension"""
+    from symplyphysics.core.operations import symbolic as sm  # pylint: disable=import-outside-toplevel
+    classes = [c for n, c in sorted(vars(sm).items()) if isinstance(c, type) and issubclass(c, sm.Symbolic) and c is not sm.Symbolic]
+    syms = [i for i, o in enumerate(objs) if o.kind == "sym" and seen[i]["display"]]
+    by_disp = {}
+    for i in syms:
+        by_disp.setdefault(seen[i]["display"], []).append(i)
+    groups = [g for g in by_disp.values() if len(g) >= 2]
+    out = []
+    for _ in range(min(pairs, len(groups))):
+        g = rng.choice(groups)
+        i, j = rng.sample(g, 2)
+        for c in classes:
+            try:
+                a, b = c(objs[i].handle), c(objs[j].handle)
+                out.append({"cls": c.__name__, "i": i, "j": j, "same_object": a is b, "equal": bool(a == b), "hash_equal": hash(a) == hash(b),
+                    "factor_own": a.factor is objs[i].handle and b.factor is objs[j].handle,
+                    "dim_own": qx.dim_vec(a.dimension) == seen[i]["dim"] and qx.dim_vec(b.dimension) == seen[j]["dim"],
+                    "texts": [str(a), str(b)]})
+            except Exception as ex:  # pylint: disable=broad-except
+                out.append({"cls": c.__name__, "i": i, "j": j, "error": f"{type(ex).__name__}: {ex}"[:200]})
+    return out
 
 
 def _value_text(printer, q):
